@@ -90,7 +90,14 @@ def model_check(name, progs, observed, fuel=FUEL, shard=150):
     disagrees: 'reject' (check_prog rejects), 'diff' (Done with other lines), 'undef', 'fuel', 'stuck'."""
     bad = {}
     ids = list(range(len(progs)))
-    shards = [ids[i:i + shard] for i in range(0, len(ids), shard)]
+    # shards bounded by count and by the size of the terms (large programs make large vm_compute jobs)
+    terms = {i: core.to_coq(progs[i]) for i in ids}
+    shards, cur, size = [], [], 0
+    for i in ids:
+        if cur and (len(cur) >= shard or size + len(terms[i]) > 300000):
+            shards.append(cur); cur, size = [], 0
+        cur.append(i); size += len(terms[i])
+    if cur: shards.append(cur)
     def one(k):
         sh = shards[k]
         v = ["From Coq Require Import String ZArith List.", "From FV Require Import Core.Syntax Core.Sem Core.Typing.",
@@ -102,7 +109,7 @@ def model_check(name, progs, observed, fuel=FUEL, shard=150):
              "  | Done out => if lines_eqb out obs then 0%Z else 2%Z",
              "  | Undefined _ => 3%Z | OutOfFuel => 4%Z | Stuck => 5%Z end.",
              "Definition cases : list (Z * prog * list line) := ["]
-        v.append(";\n".join("(%d%%Z, %s,\n   %s)" % (i, core.to_coq(progs[i]), core.c_lines(observed[i] or [])) for i in sh))
+        v.append(";\n".join("(%d%%Z, %s,\n   %s)" % (i, terms[i], core.c_lines(observed[i] or [])) for i in sh))
         v.append("].")
         v.append("Definition res := Eval vm_compute in map (fun c => match c with (i, p, o) => (i, verdict p o) end) cases.")
         v.append("Definition bad := Eval vm_compute in map fst (filter (fun c => negb (Z.eqb (snd c) 0%Z)) res).")
@@ -118,7 +125,7 @@ def model_check(name, progs, observed, fuel=FUEL, shard=150):
             raise RuntimeError("unparsable coq output:\n" + out[-2000:])
         ints = [[int(x) for x in re.findall(r"-?\d+", l)] for l in lists]
         return dict(zip(ints[0], ints[1]))
-    for r in common.pmap(one, range(len(shards)), workers=min(8, len(shards) or 1)):
+    for r in common.pmap(one, range(len(shards)), workers=min(5, len(shards) or 1)):
         bad.update(r)
     names = {1: "model-rejects", 2: "diff", 3: "undef", 4: "fuel", 5: "stuck"}
     return {i: names[c] for i, c in bad.items()}
